@@ -55,6 +55,7 @@ pub struct Tab {
     pub partial: bool,
     pub recs: Vec<Rec>,
     pub term_names: Vec<String>,
+    pub conflicts: usize,
 }
 
 static TAB: AtomicPtr<Tab> = AtomicPtr::new(std::ptr::null_mut());
@@ -181,6 +182,7 @@ pub fn load(dump: &str, fancy: bool) -> std::result::Result<Tab, String> {
         partial: false,
         recs: vec![],
         term_names: vec![],
+        conflicts: 0,
     };
     let mut cur: usize = 0;
     for line in dump.lines() {
@@ -268,6 +270,7 @@ pub fn load(dump: &str, fancy: bool) -> std::result::Result<Tab, String> {
             "goto" => {
                 t.gotos[cur][f[1].parse::<usize>().unwrap()] = Some(St(f[2].parse().unwrap()));
             }
+            "conflicts" => t.conflicts = f[1].parse().unwrap(),
             "sorted" => {
                 let n: usize = f[1].parse().unwrap();
                 for k in 0..n {
